@@ -131,3 +131,69 @@ package lex
 //@     invariant @i1 == 0 ==> index == 0
 //@     invariant index <= e.Start || index == size
 //@     invariant forall r in 0..index :: forall k in 0..len(t.SymbolMap) :: (t.SymbolMap[k].Start <= r && (k + 1 == len(t.SymbolMap) || r < t.SymbolMap[k+1].Start)) ==> ret[r] == t.SymbolMap[k].Target
+
+// ---- the pattern parser (C10): scanning window, error ranges, escape values ----
+
+// wfParser: the scanning window is inside the pattern; ch is the rune at offset (-1 exactly at the
+// end) and scanOffset is just past it; an ASCII byte is its own rune.
+//@ pred wfParser(p *parser) = 0 <= p.offset && p.offset <= p.scanOffset && p.scanOffset <= len(p.source) && (p.ch == -1 <==> p.offset == len(p.source)) && (p.offset == len(p.source) ==> p.scanOffset == p.offset) && (p.offset < len(p.source) ==> p.offset < p.scanOffset && p.ch >= 0) && (p.offset < len(p.source) && p.source[p.offset] < 128 ==> p.ch == p.source[p.offset] && p.scanOffset == p.offset + 1) && (p.offset < len(p.source) && p.source[p.offset] >= 128 ==> p.ch >= 128)
+// errInside: a recorded error points into the pattern (C10: "rejected with an error located within the pattern")
+//@ pred errInside(p *parser) = len(p.err.Msg) > 0 ==> 0 <= p.err.Offset && p.err.Offset <= p.err.EndOffset && p.err.EndOffset <= len(p.source)
+
+//@ func parser.error
+//@   requires 0 <= offset && offset <= endOffset && endOffset <= len(p.source) && errInside(p)
+//@   modifies p.err
+//@   ensures errInside(p) && (len(msg) > 0 || len(old(p.err.Msg)) > 0 ==> len(p.err.Msg) > 0)
+
+//@ func parser.next
+//@   requires 0 <= p.scanOffset && p.scanOffset <= len(p.source) && errInside(p)
+//@   modifies p.offset, p.scanOffset, p.ch, p.err
+//@   ensures wfParser(p) && errInside(p) && p.offset == old(p.scanOffset)
+//@   ensures len(old(p.err.Msg)) > 0 ==> len(p.err.Msg) > 0
+
+// parseQuantifier: {n}, {n,} and {n,m} with n <= m; anything else records an error inside the pattern.
+//@ func parser.parseQuantifier
+//@   requires wfParser(p) && errInside(p) && p.offset >= 1
+//@   modifies p.offset, p.scanOffset, p.ch, p.err
+//@   ensures wfParser(p) && errInside(p) && old(p.offset) <= p.offset
+//@   ensures len(old(p.err.Msg)) > 0 ==> len(p.err.Msg) > 0
+//@   ensures len(p.err.Msg) == 0 ==> 0 <= min && (max == -1 || min <= max)
+//@   loop 1:
+//@     invariant wfParser(p) && errInside(p) && start == old(p.offset) && start <= p.offset && (len(old(p.err.Msg)) > 0 ==> len(p.err.Msg) > 0)
+//@     invariant forall k in start..p.offset :: p.source[k] >= '0' && p.source[k] <= '9'
+//@   loop 2:
+//@     invariant wfParser(p) && errInside(p) && start == old(p.offset) && start <= toStart && toStart <= p.offset && min >= 0 && (len(old(p.err.Msg)) > 0 ==> len(p.err.Msg) > 0)
+//@     invariant forall k in toStart..p.offset :: p.source[k] >= '0' && p.source[k] <= '9'
+
+// Helpers of the parser whose bodies are not verified here (they are decided by the bounded C10
+// checks); only their frames are assumed, so that the parser's own bookkeeping can be proved.
+//@ func charset.fold
+//@   trusted frame only: the receiver set is rewritten (closure under simple case folding)
+//@   modifies c, (*c)[0:cap(*c)]
+//@ func appendNamedSet
+//@   trusted frame and shape only (pairs of code points): appends the ranges of a named Unicode class to r; decided by the bounded C10 checks
+//@   modifies r[0:cap(r)]
+//@   ensures len(result0) % 2 == 0 && forall k in 0..len(result0) :: 0 <= result0[k] && result0[k] <= 1114111
+//@ func newCharset
+//@   trusted frame and shape only: sorts and merges the ranges in place (result sorted, non-overlapping); decided by the bounded C10 checks
+//@   modifies r[0:cap(r)]
+//@   ensures (len(r) % 2 == 0 && forall k in 0..len(r) :: 0 <= old(r[k]) && old(r[k]) <= 1114111) ==> csShape(result) && csSorted(result)
+
+//@ func parser.rune
+//@   modifies p.set, p.set[0:cap(p.set)]
+
+// parseEscape: the window stays inside the pattern, every recorded error lies inside the pattern,
+// an earlier error is never lost, and the accumulated code point never overflows a rune.
+//@ func parser.parseEscape
+//@   requires wfParser(p) && errInside(p) && p.ch == 92
+//@   modifies p.offset, p.scanOffset, p.ch, p.err, p.set, p.set[0:cap(p.set)]
+//@   ensures wfParser(p) && errInside(p) && old(p.offset) <= p.offset
+//@   ensures len(old(p.err.Msg)) > 0 ==> len(p.err.Msg) > 0
+//@   loop 1:
+//@     invariant wfParser(p) && errInside(p) && start == old(p.offset) && start < p.offset && 0 <= i && i <= 3 && 0 <= r && r <= 511 && (i == 0 ==> r == 0) && (i == 1 ==> r <= 7) && (i == 2 ==> r <= 63) && (len(old(p.err.Msg)) > 0 ==> len(p.err.Msg) > 0)
+//@   loop 2:
+//@     invariant wfParser(p) && errInside(p) && start == old(p.offset) && start < nameStart && nameStart <= p.offset && (len(old(p.err.Msg)) > 0 ==> len(p.err.Msg) > 0)
+//@   loop 3:
+//@     invariant wfParser(p) && errInside(p) && old(p.offset) < start && start <= p.offset && 0 <= r && r <= 17825791 && (len(old(p.err.Msg)) > 0 ==> len(p.err.Msg) > 0)
+//@   loop 4:
+//@     invariant wfParser(p) && errInside(p) && start == old(p.offset) && start < p.offset && 0 <= i && i <= l && 0 <= r && r <= 17825791 && (len(old(p.err.Msg)) > 0 ==> len(p.err.Msg) > 0)
